@@ -7,8 +7,8 @@ from .lib import cz, cbool, clist, copt, coq_mismatches
 LEVEL = "proof"
 META = {
     "category": "proof",
-    "text": "Coq theorems over an executable model of CompareDepth / sameType / CompareSameType / Cmp / floatCmp / threeway / sliceCompare / rangeEqual / structsEqual, Int/Float/Tuple/Struct/Time Hash, sorted and min/max: within the comparison depth limit the six operators equal one three-way comparison of exact values (NaN greatest and equal to itself, int and float compared as rationals), == is an equivalence and != its negation, equal values hash equally (string hash a parameter), < is a strict total order modulo == on every ordered class with <=,>,>= derived from it, beyond the limit only the depth error can replace the answer, Less used by sorted is a strict weak order so any stable sort yields a stable sorted permutation (reverse included), min/max return the first extremal element. The hand-written model is tied to /repo on every run: the real operators, Hash methods, dict/set membership and sorted/min/max are run on all ordered pairs and all triples of a boundary pool and on random sequences; the algebraic laws are checked directly on the observations in Go and a sample is evaluated against Model.v and Spec.v inside Coq.",
-    "note": "Trusted: Coq kernel + vm_compute; the harness; math/big Rat/Int, strings.Compare, sort.Stable (contract assumed as a Section hypothesis), maphash (string hash is a parameter), time.Time as oracles. Floats are modelled as exact dyadic rationals plus NaN/+-Inf/-0 (all that comparison and hashing inspect). dict/set equality is modelled for atom keys and covered by the correspondence only; struct constructors are atoms.",
+    "text": "Coq theorems over an executable model of CompareDepth / sameType / CompareSameType / Cmp / floatCmp / threeway / sliceCompare / rangeEqual / structsEqual, Int/Float/Tuple/Struct/Time Hash, sorted and min/max: within the comparison depth limit the six operators equal one three-way comparison of exact values (NaN greatest and equal to itself, int and float compared as rationals), == is an equivalence and != its negation, equal values hash equally (string hash a parameter), < is a strict total order modulo == on every ordered class with <=,>,>= derived from it, beyond the limit only the depth error can replace the answer, Less used by sorted is a strict weak order so any stable sort yields a stable sorted permutation (reverse included), min/max return the first extremal element. The hand-written model is tied to /repo on every run: the real operators, Hash methods, dict/set membership and sorted/min/max are run on all ordered pairs and all triples of a boundary pool and on random sequences; the algebraic laws are checked directly on the observations in Go and a sample is evaluated against Model.v and Spec.v inside Coq. Dict and set are inside the theorem universe (ModelColl.v: insertion-ordered entries, keys any hashable value incl. nested tuples, values any value; dictsEqual / setsEqual / Set.CompareSameType / IsSubset (hashtable.count) / IsSuperset / hashtable.lookup / insert / `in` modelled with the hash filter and Equal at a fresh CompareLimit): == is reflexive, symmetric and transitive and != its negation on all values within the limit whose dicts/sets are well formed (eq_equivalence_coll, neq_is_negation_coll, eq_interchangeable_coll), dict == is exactly mutual inclusion modulo == of keys and values and is insensitive to entry order (dict_eq_spec, dict_eq_order_insensitive), == keys (1 / 1.0, tuples of such) find the same entry in every dict and set and insertion under one updates the other's entry (eq_interchangeable_keys), lookups do not depend on probe order (lookup_order_insensitive), ordered comparison of dicts is an error (dict_unordered), the set operators <=,<,>=,> are a partial order whose equivalence is == (set_order_partial); the extended CompareDepth equals Model.v's on every Model.v value, operator and depth (coll_conservative), which is how the new model is tied to the correspondence check.",
+    "note": "Trusted: Coq kernel + vm_compute; the harness; math/big Rat/Int, strings.Compare, sort.Stable (contract assumed as a Section hypothesis), maphash (string hash is a parameter), time.Time as oracles. Floats are modelled as exact dyadic rationals plus NaN/+-Inf/-0 (all that comparison and hashing inspect). struct constructors are atoms. The vm_compute correspondence runs Model.v (dicts / sets with atom keys); ModelColl.v (tuple keys, nested collections) is tied to it by the theorem coll_conservative and its tuple-key behaviour to the implementation by the Go law search only (dict / set histories over colliding int / float / tuple keys). In ModelColl.v entries are probed in insertion order, not bucket order (unobservable for well-formed tables: lookup_order_insensitive), the early exit of hashtable.count is not modelled, and an unhashable stored key (which insert cannot produce) answers the unhashable error; the guard cok excludes it.",
     "technique": "Coq proof over executable model + differential correspondence (vm_compute) + Spec.v oracle + direct law search in Go",
 }
 HEADER = """From Coq Require Import ZArith QArith Bool List.
